@@ -48,7 +48,11 @@ RULE = ('one case = (public callable found by introspection, argument seed, hist
         'with the Lean compile; distinct = distinct (callable, argument seed, history)')
 DISC = 'rebind'            # write discipline of reorder / sort_by / append on the current tree
 WRITES = '@write-sets'     # pseudo-case: write sets of the mutators, source text vs Lean `compile`
-BRANCHES = ['tie:write-sets', 'call:returned', 'call:raised', 'side:result-op', 'side:source-op',
+BRANCHES = ['arg:nan:none', 'arg:nan:common', 'arg:nan:per-rdm',
+            'arg:weights:2d', 'arg:weights:1d', 'arg:weights:name-2d', 'arg:weights:name-1d', 'arg:weights:none',
+            'arg:sigma_k:none', 'arg:sigma_k:matrix', 'arg:sigma_k:vector',
+            'arg:noise:array', 'arg:theta:array', 'arg:pattern_idx:array',
+            'tie:write-sets', 'call:returned', 'call:raised', 'side:result-op', 'side:source-op',
             'op:fill', 'op:reorder', 'op:sort_by', 'op:append', 'op:ds_sort_by',
             'result:rdms', 'result:dataset', 'result:array', 'result:scalar-or-other']
 ASSUMPTIONS = [
@@ -104,6 +108,7 @@ def _call(case):
     q = case['fn']
     kind, fn, owner = callables()[q]
     self_obj, args, kwargs = A.build_call(q, case['seed'])
+    _call.tags = list(A.build_call.last_tags)
     source = {'self': self_obj, 'args': args, 'kwargs': kwargs}
     before = H.fingerprint(source)
     exc = None
@@ -158,7 +163,7 @@ def observe(case):
     """run one case on the real code; everything the engine needs"""
     H.quiet()
     source, result, exc, mutated = _call(case)
-    obs = {'exc': exc, 'mutated': mutated, 'mutated_all': list(_call.all_diffs), 'steps': [], 'interference': [], 'kinds': [],
+    obs = {'exc': exc, 'tags': list(_call.tags), 'mutated': mutated, 'mutated_all': list(_call.all_diffs), 'steps': [], 'interference': [], 'kinds': [],
            'heap': None, 'trace': None, 'hist': [], 'sharing': []}
     if exc is not None:
         return obs
@@ -274,7 +279,7 @@ def generate(rng, tier):
         ASSUMPTIONS.append(f'{len(cov)} public callables exercised; documented in-place operations '
                            f'(history alphabet, not producers): ' + ', '.join(sorted(H.MUTATORS)))
     yield {'fn': WRITES, 'seed': 0}
-    n_sets = 4 if tier == 'quick' else 24
+    n_sets = 6 if tier == 'quick' else 24
     for q in cov:
         base = rng.randrange(1, 10 ** 6)
         for k in range(n_sets):
@@ -412,7 +417,7 @@ def features(case, impl):
     if case['fn'] == WRITES:
         return {'fn': WRITES, 'package': 'source-text', 'branches': ['tie:write-sets']}
     o = _obs(case)
-    br = ['call:raised' if o['exc'] else 'call:returned']
+    br = ['call:raised' if o['exc'] else 'call:returned'] + ['arg:' + t for t in o.get('tags', [])]
     for s in o['hist']:
         br.append('op:' + s['op'])
         br.append('side:result-op' if s['side'] == 'result' else 'side:source-op')
